@@ -109,6 +109,7 @@ R01.7 the destination import path comes from modfile.ModulePath of the nearest g
 	goR015(c, r, "R01.5")
 	goR016(c, r)
 	goR017(c, r)
+	goR017Search(c, r)
 	// qualifier bookkeeping: distinct imports never share a qualifier (shared with C15)
 	ruleAddImport(c, r, "R01.5")
 	accessorTableGuard(c, "R01.9")
@@ -1093,4 +1094,112 @@ func ruleFormattersKeepComments(c *Ctx, r *Repo, rule string) {
 		return true
 	})
 	c.Check(nCalls >= 1 && (nOpt >= 1 || nSource == nCalls), rule, "formatter|reached", r.Pos(fm.Pos()), fmt.Sprintf("%d library formatter calls reachable from format, %d imports.Options values examined", nCalls, nOpt), "no library formatter call (go/format.Source, imports.Process) is reachable from TemplateGenerator.format, or imports.Process is used without any imports.Options value being found: comment preservation is not decided")
+}
+
+// goR017Search (R01.7, added after the mechanical-mutation sweep): the upward search for go.mod. Every round
+// tests <cursor>/go.mod for existence; the loop is left with a go.mod only on a path where that test said
+// "exists"; a round that found none moves the cursor to its parent and continues, except at the root, where
+// the search fails with an error; the test's own error is returned.
+func goR017Search(c *Ctx, r *Repo) {
+	ip := r.Pkg("internal")
+	info := ip.TypesInfo
+	root := FuncDecl(ip, "findPkgPath")
+	if root == nil {
+		return
+	}
+	var host *ast.FuncDecl
+	var loop *ast.ForStmt
+	for _, g := range withCallees(ip, root) {
+		ast.Inspect(g.Body, func(n ast.Node) bool {
+			fs, ok := n.(*ast.ForStmt)
+			if !ok || loop != nil {
+				return true
+			}
+			has := false
+			ast.Inspect(fs.Body, func(m ast.Node) bool {
+				if call, ok := m.(*ast.CallExpr); ok && strings.HasSuffix(calleeName(info, call), "pathlib.Path).Exists") {
+					has = true
+				}
+				return true
+			})
+			if has {
+				host, loop = g, fs
+			}
+			return true
+		})
+	}
+	if loop == nil {
+		c.Fail("R01.7", "findPkgPath|search-loop", r.Pos(root.Pos()), "no loop that tests candidate go.mod paths for existence was found (shape not recognised)")
+		return
+	}
+	d := newDTP(ip, host)
+	start := d.envBefore(seedEnv(d, host), host.Body.List, loop)
+	// loop-carried variables (assigned in the body, declared outside it) are unknown at the head of a round
+	lv := 0
+	carried := map[types.Object]string{}
+	ast.Inspect(loop.Body, func(n ast.Node) bool {
+		if as, ok := n.(*ast.AssignStmt); ok && as.Tok == token.ASSIGN {
+			for _, l := range as.Lhs {
+				if id, ok := ast.Unparen(l).(*ast.Ident); ok {
+					if o := info.Uses[id]; o != nil && (o.Pos() < loop.Body.Pos() || o.Pos() > loop.Body.End()) {
+						if _, seen := start.env[o]; !seen || !strings.HasPrefix(start.env[o], "CARRIED") {
+							start.env[o] = fmt.Sprintf("CARRIED%d", lv)
+							carried[o] = start.env[o]
+							lv++
+						}
+					}
+				}
+			}
+		}
+		return true
+	})
+	d.paths = nil
+	d.stmts(start, loop.Body.List, func(p *dtPath) { d.finish(p, "end") })
+	nFound, nUp, nRoot := 0, 0, 0
+	for _, p := range d.paths {
+		if os.Getenv("MVCHECK_DEBUG") != "" {
+			fmt.Fprintf(os.Stderr, "gomod path %s steps=%v\n", p.String(), p.Steps)
+		}
+		exErrNil, hasErr, exists, hasEx, atRoot, hasRoot := true, false, false, false, false, false
+		for _, a := range p.Atoms {
+			switch {
+			case strings.Contains(a.Expr, ".Exists>()#1 == nil"):
+				exErrNil, hasErr = a.Val, true
+			case strings.HasSuffix(a.Expr, ".Exists>()#0"):
+				exists, hasEx = a.Val, true
+			case strings.Contains(a.Expr, ".Parent>()") && strings.Contains(a.Expr, " == "):
+				atRoot, hasRoot = a.Val, true
+			}
+		}
+		_ = hasErr
+		fails := p.Exit == "return" && len(p.Ret) > 0 && p.Ret[len(p.Ret)-1] != "nil"
+		switch {
+		case !exErrNil:
+			c.Check(fails, "R01.7", "findPkgPath|search|exists-error", r.Pos(loop.Pos()), "the existence test's error is returned", "an error of the existence test does not end the search with an error: "+p.String())
+		case hasEx && exists:
+			nFound++
+			// leaves the loop (break, or return of a non-error) and the go.mod used afterwards is the one tested
+			c.Check(p.Exit == "break" || p.Exit == "return" && !fails, "R01.7", "findPkgPath|search|found-leaves", r.Pos(loop.Pos()), "an existing go.mod ends the search", "the search does not stop at a directory whose go.mod exists: "+p.String())
+		case hasEx && !exists && hasRoot && atRoot:
+			nRoot++
+			c.Check(fails, "R01.7", "findPkgPath|search|root", r.Pos(loop.Pos()), "reaching the root without a go.mod is an error", "reaching the file-system root without finding a go.mod is not reported as an error: "+p.String())
+		case hasEx && !exists && hasRoot && !atRoot:
+			nUp++
+			moved := false
+			for o, nm := range carried {
+				if v := p.env[o]; strings.HasPrefix(v, nm+".Parent<") && strings.HasSuffix(v, ".Parent>()") {
+					moved = true
+				}
+			}
+			c.Check(moved && (p.Exit == "continue" || p.Exit == "end"), "R01.7", "findPkgPath|search|ascend", r.Pos(loop.Pos()), "a directory without go.mod hands over to its parent", "a directory without a go.mod neither moves the search to its parent nor continues it: "+p.String())
+		case hasEx && !exists:
+			c.Fail("R01.7", "findPkgPath|search|no-root-test", r.Pos(loop.Pos()), "a round that found no go.mod does not compare the directory with its parent (the search would never end at the root): "+p.String())
+		default:
+			if p.Exit == "return" && fails {
+				continue // iteration cap and similar bail-outs
+			}
+			c.Fail("R01.7", "findPkgPath|search|untested-round", r.Pos(loop.Pos()), "a round of the go.mod search ends without an existence test: "+p.String())
+		}
+	}
+	c.Check(nFound > 0 && nUp > 0 && nRoot > 0, "R01.7", "findPkgPath|search|cases", r.Pos(loop.Pos()), "found / ascend / root cases all present", fmt.Sprintf("the go.mod search lacks one of its cases (found %d, ascend %d, root %d)", nFound, nUp, nRoot))
 }
